@@ -119,6 +119,11 @@ func (m *Machine) formatArg(spec string, verb byte, arg Value) Str {
 			return s
 		}
 	}
+	if bv, ok := iv.v.(BV); ok && bv.T != nil && (verb == 'd' || verb == 'v') && (spec == "%d" || spec == "%v") {
+		if s, ok := m.symDec(bv, isSigned(iv.t)); ok {
+			return s
+		}
+	}
 	cv := m.concretizeValue(iv.v)
 	nv, ok := m.ifaceToNative(Iface{t: iv.t, v: cv})
 	if !ok {
@@ -408,6 +413,49 @@ func (m *Machine) symHex(v BV, signed bool, spec string, upper bool) (Str, bool)
 		nib := tc.Zext(tc.Extract(v.T, 4*i+3, 4*i), 8)
 		ch := tc.Ite(tc.Cmp(OpUlt, nib, tc.Const(8, 10)), tc.Bin(OpAdd, nib, tc.Const(8, '0')), tc.Bin(OpAdd, nib, tc.Const(8, alpha)))
 		bs = append(bs, m.fromTerm(ch).(BV))
+	}
+	return strFromBytes(bs), true
+}
+
+// symDec formats a symbolic integer in decimal: forks on sign and digit count (up to 5
+// digits), the digits stay symbolic (division by constants).
+func (m *Machine) symDec(v BV, signed bool) (Str, bool) {
+	tc := m.tc
+	w := uint16(v.W)
+	t := v.T
+	neg := false
+	if signed {
+		if m.branch(m.fromTerm(tc.Cmp(OpSlt, t, tc.Const(w, 0))).(BoolV), "dec-sign") {
+			neg = true
+			t = tc.Neg(t)
+		}
+	}
+	nd := 0
+	lim := uint64(10)
+	for k := 1; k <= 5; k++ {
+		if m.branch(m.fromTerm(tc.Cmp(OpUlt, t, tc.Const(w, lim))).(BoolV), "dec-digits") {
+			nd = k
+			break
+		}
+		lim *= 10
+	}
+	if nd == 0 {
+		return Str{}, false
+	}
+	var bs []BV
+	if neg {
+		bs = append(bs, mkInt(8, '-'))
+	}
+	pow := uint64(1)
+	for i := 1; i < nd; i++ {
+		pow *= 10
+	}
+	for i := 0; i < nd; i++ {
+		q := tc.Bin(OpUDiv, t, tc.Const(w, pow))
+		d := tc.Bin(OpURem, q, tc.Const(w, 10))
+		ch := tc.Bin(OpAdd, tc.Extract(d, 7, 0), tc.Const(8, '0'))
+		bs = append(bs, m.fromTerm(ch).(BV))
+		pow /= 10
 	}
 	return strFromBytes(bs), true
 }
